@@ -740,6 +740,18 @@ fn run_history(bytes: &[u8], ctx: &mut Ctx, want_log: bool, log: &mut Vec<String
                     h = prev.internal_hashes[usize::from(h[30]) % prev.internal_hashes.len()];
                     ctx.label("insert:leaf-hash-equals-an-internal-node-hash");
                 }
+                // one hash in 16 is an EXISTING leaf hash with a single byte changed
+                // (anywhere in its 32 bytes): distinct hashes that agree in a prefix,
+                // a suffix, or all but one byte — what any index keyed by part of a
+                // hash would confuse. (Decided by bits of the hash: no extra choice.)
+                if h[29] & 0x0f == 0x0f && !model.is_empty() {
+                    let donor = model.values().nth(usize::from(h[28]) % model.len()).unwrap().1;
+                    let at = usize::from(h[27]) % 32;
+                    let x = h[26] | 1;
+                    h = donor;
+                    h[at] ^= x;
+                    ctx.label(if at >= 16 { "insert:hash-shares-first-half-with-an-existing-one" } else { "insert:hash-shares-second-half-with-an-existing-one" });
+                }
                 if !g.large && g.s.weighted(&[3, 5]) == 1 {
                     // small key space: mostly aim at an unused key so that trees grow
                     if let Some(fk) = g.fresh_key(&model, &BTreeSet::new()) {
@@ -1207,6 +1219,8 @@ pub fn run_main() {
                 "chain-prologue:depth-100+",
                 "insert:leaf-hash-equals-an-internal-node-hash",
                 "upsert:leaf-hash-equals-an-internal-node-hash",
+                "insert:hash-shares-first-half-with-an-existing-one",
+                "insert:hash-shares-second-half-with-an-existing-one",
             ],
         }],
     });
